@@ -44,7 +44,7 @@ REAL_VS_STUB = {"real": ["molli.chem.ensemble.ConformerEnsemble / Conformer", "_
 INTERP_VARIANTS = [{"flags": ["-O"], "runs": {"quick": 2000, "thorough": 30000}, "what": "python -O (assert statements stripped from the code under test)"}]
 PROBES = ["iter_plain", "iter_nested", "iter_zip", "iter_restart", "two_or_more_tasks_interleaved", "mutator_between_nexts", "append", "extend_list",
           "extend_ens", "extend_oneshot_iterable", "held_view_checked_after_mutation", "refused_append_or_extend", "atom_relabelled_between_stores", "copy_construct", "rebuild_from_conformers", "slice", "write_through_conformer", "serialise_roundtrip", "conformer_dump",
-          "empty_ensemble_iterated", "history_continues_on_reloaded_ensemble", "conformers_of_a_temporary_ensemble", "ensemble_dump_roundtrip", "own_conformers_appended"]
+          "empty_ensemble_iterated", "history_continues_on_reloaded_ensemble", "conformers_of_a_temporary_ensemble", "ensemble_dump_roundtrip", "own_conformers_appended", "per_conformer_rotation", "refused_rotation"]
 
 TEMPLATES = {
     "neon": (["Ne"], []),
@@ -78,7 +78,7 @@ def gen_plan(r, tier, index):
             mut = []
             if r.random() < 0.5:
                 for _ in range(r.choice([1, 2, 4])):
-                    mut.append({"op": r.choice(["scale", "translate", "translate2", "rotate", "invert", "center_atom", "write", "write_elem", "write_charge", "relabel", "dump", "ens_dump", "serialise", "serialise"]),
+                    mut.append({"op": r.choice(["scale", "translate", "translate2", "rotate", "invert", "center_atom", "write", "write_elem", "write_charge", "relabel", "dump", "ens_dump", "serialise", "serialise", "rotate_stack", "rotate_bad"]),
                                 "a": r.randrange(1 << 16)})
             phases.append({"type": "iter", "tasks": tasks, "mutator": mut, "sched_seed": r.randrange(1 << 30),
                            "strategy": r.choice(["random", "random", "round_robin", "sticky"])})
@@ -276,11 +276,11 @@ def _run_plan(plan, trace=False):
                         accepted = True
                     except Exception:  # noqa: BLE001 - any refusal will do
                         accepted = False
-                    if accepted and mc.shape[0] > 0:
-                        viol("mismatched-geometry-accepted", f"{op}: a {len(TEMPLATES[other_t][0])}-atom geometry was accepted by an ensemble of {na}-atom conformers")
                     if accepted:
-                        # (an ensemble without conformers may adopt the shape; nothing to compare then)
-                        raise _V()
+                        # (also an ensemble that holds no conformer yet has its atoms: a geometry with another number of atoms
+                        #  cannot be a conformer of it)
+                        viol("mismatched-geometry-accepted", f"{op}: a {len(TEMPLATES[other_t][0])}-atom geometry was accepted by an ensemble of {na} atoms "
+                                                            f"holding {mc.shape[0]} conformers")
                 elif op == "append":
                     res.stats["probe:append"] += 1
                     for k in range(ph["n"]):
@@ -592,6 +592,32 @@ def _mutate(mo, st, res, viol, na, ser, deser, msgpack):
         R = np.array([[0.0, -1.0, 0.0], [1.0, 0.0, 0.0], [0.0, 0.0, 1.0]])
         ens.rotate(R)
         mc[:] = mc @ R
+    elif op == "rotate_stack":
+        # one rotation matrix per conformer
+        if nc == 0:
+            return
+        Rz = np.array([[0.0, -1.0, 0.0], [1.0, 0.0, 0.0], [0.0, 0.0, 1.0]])
+        Rx = np.array([[1.0, 0.0, 0.0], [0.0, 0.0, -1.0], [0.0, 1.0, 0.0]])
+        Rs = np.stack([Rz if (a >> i) & 1 else Rx for i in range(nc)])
+        ens.rotate(Rs)
+        for i in range(nc):
+            mc[i] = mc[i] @ Rs[i]
+        res.stats["probe:per_conformer_rotation"] += 1
+    elif op == "rotate_bad":
+        # something that is not a rotation of THIS ensemble (one matrix too many; a bare vector) is refused and changes nothing
+        if nc == 0 or na in (1, 3):
+            return
+        Rz = np.array([[0.0, -1.0, 0.0], [1.0, 0.0, 0.0], [0.0, 0.0, 1.0]])
+        bad = np.stack([Rz] * (nc + 1)) if a % 2 else np.array([1.0, 0.0, 0.0])
+        res.stats["probe:refused_rotation"] += 1
+        try:
+            ens.rotate(bad)
+            accepted = True
+        except Exception:  # noqa: BLE001 - any refusal will do
+            accepted = False
+        if accepted:
+            viol("bad-rotation-accepted", f"rotate() accepted an argument of shape {bad.shape} for an ensemble of {nc} conformers; arrays now "
+                                          f"{tuple(ens.coords.shape)} {tuple(ens.atomic_charges.shape)} {tuple(ens.weights.shape)}")
     elif op == "relabel":
         # constitution-level edits between two stores: what is serialised must be what the ensemble is NOW
         if na == 0:
